@@ -278,3 +278,39 @@ Fixpoint expand (t : tree) (root : path) (pat : pattern) : list path :=
   | [] => [root]
   | c :: rest => flat_map (fun k => expand t (root ++ [k]) rest) (filter (clause_match c) (kids_of t root))
   end.
+
+(* The nodes a traversal with several patterns of equal depth calls back on, in traversal order
+   (NodePathMatcher::DoTraversalAux / CheckChildForTraversal): at every level the candidates are, when some
+   pattern has a wildcard clause at that level, the children in iteration order that match some pattern's clause
+   of that level; otherwise the children named by the patterns' clauses of that level, in pattern order, each
+   once (direct lookup).  At the last level a candidate is reported when some pattern matches its whole path. *)
+Definition is_any (c : clause) : bool := match c with CAny => true | CLit _ => false end.
+
+Fixpoint dedupe_names (l : list name) : list name :=
+  match l with
+  | [] => []
+  | x :: r => x :: filter (fun y => negb (name_eqb x y)) (dedupe_names r)
+  end.
+
+Fixpoint trav (k : nat) (t : tree) (pats : list pattern) (rootlen : nat) (node : path) : list path :=
+  match k with
+  | 0 => []
+  | S k' =>
+      let d := length node - rootlen in
+      let cls := flat_map (fun p => match nth_error p d with Some c => [c] | None => [] end) pats in
+      let kids := kids_of t node in
+      let cands := if existsb is_any cls
+                   then filter (fun x => existsb (fun c => clause_match c x) cls) kids
+                   else dedupe_names (filter (fun x => mem x kids)
+                                             (flat_map (fun c => match c with CLit x => [x] | CAny => [] end) cls)) in
+      match k' with
+      | 0 => filter (fun q => existsb (fun p => pmatch p (skipn rootlen q)) pats) (map (fun x => node ++ [x]) cands)
+      | S _ => flat_map (fun x => trav k' t pats rootlen (node ++ [x])) cands
+      end
+  end.
+
+Definition expand_multi (t : tree) (root : path) (pats : list pattern) : list path :=
+  match pats with
+  | [] => []
+  | p :: _ => trav (length p) t pats (length root) root
+  end.
